@@ -61,6 +61,139 @@ def smul [Mul K] (c : K) (v : List K) : List K := v.map fun x => c * x
 
 end Kernel
 
+/-! ## The same kernel as the code computes it: one rounding `fl` after every operation
+
+`fl` is a parameter (with `fl := id` this is the exact kernel above, see
+`flSetCell_id` / `flOrientCell_id` in `Props/C15.lean`); the theorems about it carry the
+standard-model hypothesis `|fl x - x| ≤ u·|x|` (`FlOk`, `Lemmas/C15Round.lean`). -/
+section FlKernel
+variable {K : Type}
+
+/-- `add.reduce((x.conj() * x).real, axis=-1)` of one cell: every square is rounded, every
+addition is rounded, left to right -/
+def flSqLen [Zero K] [Add K] [Mul K] (fl : K → K) (v : List K) : K :=
+  v.foldl (fun acc x => fl (acc + fl (x * x))) 0
+
+/-- one cell of `np.linalg.norm(array, axis=-1, keepdims=True)` as computed: the rounded
+root of the rounded sum of rounded squares -/
+def flNormCell [Zero K] [Add K] [Mul K] (fl sqrt : K → K) (v : List K) : K :=
+  fl (sqrt (flSqLen fl v))
+
+/-- one cell of the norm setter as computed: `fl(fl(x / nrm) * t)` where `nrm != 0.0` -/
+def flSetCell [Zero K] [Add K] [Mul K] [Div K] [DecidableEq K] (fl sqrt : K → K) (v : List K)
+    (t : K) : List K :=
+  (if flNormCell fl sqrt v = 0 then zeros v else v.map fun x => fl (x / flNormCell fl sqrt v)).map
+    fun x => fl (x * t)
+
+/-- one cell of `Field.orientation` as computed: `fl(x / nrm)` where `~np.isclose(nrm, 0)` -/
+def flOrientCell [Zero K] [Add K] [Mul K] [Div K] [Neg K] [LT K] [LE K] [DecidableLT K]
+    [DecidableLE K] (fl sqrt : K → K) (atol : K) (v : List K) : List K :=
+  if closeZero atol (flNormCell fl sqrt v) then zeros v
+  else v.map fun x => fl (x / flNormCell fl sqrt v)
+
+end FlKernel
+
+/-! ## binary64 as an instance of `fl`: what the driver runs for the bit-exact comparison
+
+Round to nearest, ties to even, 53 significant bits, unbounded exponent (no under- or
+overflow; the harness keeps away from both).  The exponent is *estimated* from the bit
+lengths of numerator and denominator and the estimate is *checked* (`2^52 ≤ m < 2^53`);
+should the check ever fail the number is returned unrounded, so that the error bound
+`|fl64 x - x| ≤ 2^-53·|x|` (`fl64_flOk`) holds by construction. -/
+
+def pow2 (e : Int) : Rat :=
+  if 0 ≤ e then ((2 ^ e.toNat : Nat) : Rat) else 1 / ((2 ^ (-e).toNat : Nat) : Rat)
+
+/-- the significand `|x| / 2^e` rounded to an integer (ties to even) if it lies in
+`[2^52, 2^53)`, times `2^e` -/
+def fl64At (x : Rat) (e : Int) : Option Rat :=
+  if (4503599627370496 : Rat) ≤ x / pow2 e ∧ x / pow2 e < 9007199254740992 then
+    some ((Mesh.roundHalfEven (x / pow2 e) : Rat) * pow2 e)
+  else none
+
+/-- estimate of `⌊log2 x⌋ - 52` for positive `x` (exact or one too large) -/
+def expEst (x : Rat) : Int := (Nat.log2 x.num.natAbs : Int) - (Nat.log2 x.den : Int) - 52
+
+/-- binary64 rounding of a positive rational -/
+def fl64Pos (x : Rat) : Rat :=
+  match fl64At x (expEst x) with
+  | some r => r
+  | none =>
+    match fl64At x (expEst x - 1) with
+    | some r => r
+    | none => x
+
+/-- binary64 rounding (round to nearest even, unbounded exponent) -/
+def fl64 (x : Rat) : Rat :=
+  if x = 0 then 0 else if x < 0 then -fl64Pos (-x) else fl64Pos x
+
+/-- rounding of a natural number `s ≥ 2^53` to 53 significant bits (a multiple of
+`2^(⌊log2 s⌋ - 52)`): to nearest; on a tie to even if `exact`, upwards otherwise (`s` is the
+integer part of a root, `exact` tells that the root *is* `s`) -/
+def sqrt64Round (s : Nat) (exact : Bool) : Nat :=
+  if 2 * (s % 2 ^ (Nat.log2 s + 1 - 53)) < 2 ^ (Nat.log2 s + 1 - 53) then s - s % 2 ^ (Nat.log2 s + 1 - 53)
+  else if 2 ^ (Nat.log2 s + 1 - 53) < 2 * (s % 2 ^ (Nat.log2 s + 1 - 53)) then
+    s - s % 2 ^ (Nat.log2 s + 1 - 53) + 2 ^ (Nat.log2 s + 1 - 53)
+  else if exact && (s / 2 ^ (Nat.log2 s + 1 - 53)) % 2 = 0 then s - s % 2 ^ (Nat.log2 s + 1 - 53)
+  else s - s % 2 ^ (Nat.log2 s + 1 - 53) + 2 ^ (Nat.log2 s + 1 - 53)
+
+/-- scale exponent: `x·4^k ≥ 2^109` for every positive `x` with this `k` -/
+def sqrt64Scale (x : Rat) : Nat := 55 + Nat.log2 x.den
+
+/-- integer part of `√(x·4^k)` -/
+def sqrt64Int (x : Rat) : Nat := Nat.sqrt (x * (4 : Rat) ^ sqrt64Scale x).floor.toNat
+
+/-- correctly rounded binary64 square root of a rational (`np.sqrt`): the integer square
+root of `⌊x·4^k⌋` (at least 55 bits), rounded to 53 bits with the exactness of the integer
+root as sticky information, divided by `2^k` -/
+def sqrt64 (x : Rat) : Rat :=
+  if x ≤ 0 then 0
+  else
+    (sqrt64Round (sqrt64Int x)
+        (decide (((sqrt64Int x * sqrt64Int x : Nat) : Rat) = x * (4 : Rat) ^ sqrt64Scale x)) : Rat) /
+      (2 : Rat) ^ sqrt64Scale x
+
+/-! ## Complex fields (`dtype=complex`): a component is a pair `(re, im)`
+
+The code runs the very same lines on a complex array: `np.linalg.norm` sums
+`(x.conj() * x).real = re² + im²`, the division is by the real norm, the product is with
+the real target promoted to `t + 0j`.  `flattenC` views a complex cell as a real cell with
+twice as many components (`array.view(float)`); the harness sends complex fields to the
+driver through that view, and `cSetCell_flatten` / `cOrientCell_flatten` (Props) show that
+the complex kernel *is* the real kernel on the view. -/
+section CKernel
+variable {K : Type}
+
+/-- `Σ_c (conj(z_c)·z_c).real` -/
+def cSqLen [Zero K] [Add K] [Mul K] : List (K × K) → K
+  | [] => 0
+  | z :: zs => (z.1 * z.1 + z.2 * z.2) + cSqLen zs
+
+def cNormCell [Zero K] [Add K] [Mul K] (sqrt : K → K) (v : List (K × K)) : K := sqrt (cSqLen v)
+
+/-- complex product -/
+def cmul [Add K] [Sub K] [Mul K] (z w : K × K) : K × K := (z.1 * w.1 - z.2 * w.2, z.1 * w.2 + z.2 * w.1)
+
+/-- one cell of the norm setter on a complex array: divide by the real norm where it is
+non-zero, then multiply by `t + 0j` -/
+def cSetCell [Zero K] [Add K] [Sub K] [Mul K] [Div K] [DecidableEq K] (sqrt : K → K)
+    (v : List (K × K)) (t : K) : List (K × K) :=
+  (if cNormCell sqrt v = 0 then v.map fun _ => ((0 : K), (0 : K))
+   else v.map fun z => (z.1 / cNormCell sqrt v, z.2 / cNormCell sqrt v)).map fun z => cmul z (t, 0)
+
+/-- one cell of `Field.orientation` on a complex array -/
+def cOrientCell [Zero K] [Add K] [Mul K] [Div K] [Neg K] [LT K] [LE K] [DecidableLT K]
+    [DecidableLE K] (sqrt : K → K) (atol : K) (v : List (K × K)) : List (K × K) :=
+  if closeZero atol (cNormCell sqrt v) then v.map fun _ => ((0 : K), (0 : K))
+  else v.map fun z => (z.1 / cNormCell sqrt v, z.2 / cNormCell sqrt v)
+
+/-- `array.view(float)` of one cell: `[re_0, im_0, re_1, im_1, …]` -/
+def flattenC : List (K × K) → List K
+  | [] => []
+  | z :: zs => z.1 :: z.2 :: flattenC zs
+
+end CKernel
+
 /-! ## An executable square root on `Rat` (driver instantiation of the parameter)
 
 Exact on rational squares (so on every vector with rational length, e.g. scaled
@@ -84,6 +217,7 @@ inductive NSpec where
   | const (c : Rat)
   | arr (a : NDA Rat)
   | fn (g : List Rat → Rat)
+  | field (h : Fld)
 
 /-- NumPy broadcasting of shape `s` to shape `t` (right-aligned; a source axis is 1 or equal) -/
 def bcastOk (s t : List Nat) : Bool :=
@@ -103,12 +237,34 @@ def bcastArr {α : Type} (m : Mesh) (a : NDA α) : M (NDA α) :=
   else if !bcastOk a.shape (m.n ++ [1]) then .error .value
   else .ok ⟨m.n, fun i => a.get (bcastIdx a.shape (m.n ++ [1]) (i ++ [0]))⟩
 
+/-- `pandas.Index.get_indexer([p], method="nearest")` on an increasing coordinate index
+(what `DataArray.sel(..., method="nearest")` resolves to), modelled by contract: the
+position whose coordinate is closest to `p`, the larger position on a tie -/
+def nearestIdx (xs : List Rat) (p : Rat) : Nat :=
+  (List.range xs.length).foldl
+    (fun best j => if absR (xs.getD j 0 - p) ≤ absR (xs.getD best 0 - p) then j else best) 0
+
+/-- `Field._as_array(val, mesh, nvdim=1, dtype)` for `val` a `Field`: region containment
+check, component-count check, then `val.to_xarray().sel(**{dim: mesh.cells.dim},
+method="nearest")` — per axis the cell of `val` whose midpoint is nearest to the midpoint
+of the receiving cell.  The selection is by dimension *name*; only equal names in equal
+order are modelled (anything else is `notImpl`). -/
+def fieldAsArray1 (m : Mesh) (h : Fld) : M (NDA Rat) :=
+  if !h.mesh.region.containsReg m.region then .error .value
+  else if h.nvdim ≠ 1 then .error .value
+  else if h.mesh.region.dims ≠ m.region.dims then .error .notImpl
+  else .ok ⟨m.n, fun i =>
+    (h.data.get (tab m.ndim fun a =>
+      nearestIdx (h.mesh.cells.getD a []) ((m.cells.getD a []).getD (i.getD a 0) 0))).getD 0 0⟩
+
 /-- `Field._as_array(val, mesh, nvdim=1, dtype)` for number / array-like / callable (the
-callable is evaluated at every cell centre, `for index, point in zip(mesh.indices, mesh)`) -/
+callable is evaluated at every cell centre, `for index, point in zip(mesh.indices, mesh)`)
+/ field -/
 def asArray1 (m : Mesh) : NSpec → M (NDA Rat)
   | .const c => .ok ⟨m.n, fun _ => c⟩
   | .arr a => bcastArr m a
   | .fn g => .ok ⟨m.n, fun i => g (m.centre i)⟩
+  | .field h => fieldAsArray1 m h
 
 /-- value specifications of `update_field_values` used here (the full set is C02's) -/
 inductive VSpec where
@@ -212,6 +368,28 @@ def mk? (sqrt : Rat → Rat) (atol : Rat) (m : Mesh) (nvdim : Nat) (value : VSpe
         | .error e => .error e
         | .ok f2 => .ok { f2 with vdims := Fld.defaultVdims nvdim,
                                   vmap := defaultVmap nvdim m.region.dims }
+
+/-! ## Histories: what a program may do to a live field -/
+
+/-- one statement of a program acting on a live field -/
+inductive Step where
+  | setNorm (s : Option NSpec)   -- `field.norm = s`
+  | update (v : VSpec)           -- `field.update_field_values(v)`
+  | setValid (s : ValidSpec)     -- `field.valid = s`
+
+/-- one statement (this is what the driver runs for every step of a case) -/
+def step (sqrt : Rat → Rat) (atol : Rat) (f : Fld) : Step → M Fld
+  | .setNorm s => setNorm sqrt f s
+  | .update v => updateValues f v
+  | .setValid s => setValid sqrt atol f s
+
+/-- a whole history; it ends at the first statement that raises -/
+def run (sqrt : Rat → Rat) (atol : Rat) : Fld → List Step → M Fld
+  | f, [] => .ok f
+  | f, s :: rest =>
+    match step sqrt atol f s with
+    | .error e => .error e
+    | .ok g => run sqrt atol g rest
 
 /-! ## Polynomial callables for the driver -/
 
